@@ -25,11 +25,14 @@ package c03
 
 import (
 	"context"
+	"crypto/sha1"
+	"encoding/hex"
 	"errors"
 	"fmt"
 	"io"
 	"net"
 	"strconv"
+	"strings"
 	"sync"
 	"sync/atomic"
 	"testing"
@@ -147,6 +150,20 @@ type world struct {
 	hookDown  atomic.Bool
 	netDown   bool
 	keySeq    int
+
+	// extension (ext_test.go): what the store knows about scripts, and garbage replies
+	raw       *red.Client  // the harness's own plain connection to miniredis (SCRIPT FLUSH / EXISTS)
+	cached    sync.Map     // sha1 -> struct{}: scripts the store holds (mirrors miniredis' script cache)
+	noScript  atomic.Int64 // top-level EVALSHA for a script the store does not hold (answered NOSCRIPT)
+	evalFull  atomic.Int64 // top-level EVAL (script body sent) handed to miniredis
+	garble    atomic.Int32 // != 0: script commands are answered with a reply no script of a limiter produces
+	garbled   atomic.Int64 // script commands answered that way
+	flushes   atomic.Int64 // SCRIPT FLUSH commands seen
+}
+
+func shaOf(script string) string {
+	h := sha1.Sum([]byte(script))
+	return hex.EncodeToString(h[:])
 }
 
 // drvHook sits innermost in the redis client's hook chain and sees the driver's
@@ -202,7 +219,38 @@ func newWorld(t *testing.T) *world {
 				c.WriteError(injectedErr)
 				return true
 			}
+			if g := w.garble.Load(); g != 0 {
+				// the store is reachable but answers something no limiter script returns
+				w.evalsRej.Add(1)
+				w.garbled.Add(1)
+				writeGarbage(c, g)
+				return true
+			}
+			if len(args) > 0 {
+				if cmd == "EVALSHA" {
+					if _, ok := w.cached.Load(strings.ToLower(args[0])); !ok {
+						// miniredis will answer NOSCRIPT: the script does not execute
+						w.noScript.Add(1)
+						return false
+					}
+				} else {
+					w.evalFull.Add(1)
+					w.cached.Store(shaOf(args[0]), struct{}{})
+				}
+			}
 			w.evalsExec.Add(1)
+		case "SCRIPT":
+			if len(args) > 0 {
+				switch strings.ToLower(args[0]) {
+				case "flush":
+					w.flushes.Add(1)
+					w.cached.Range(func(k, _ any) bool { w.cached.Delete(k); return true })
+				case "load":
+					if len(args) > 1 {
+						w.cached.Store(shaOf(args[1]), struct{}{})
+					}
+				}
+			}
 		case "PING":
 			if w.hookDown.Load() {
 				c.WriteError(injectedErr)
@@ -219,12 +267,15 @@ func newWorld(t *testing.T) *world {
 	w.px = px
 	w.direct = redis.New(mr.Addr(), redis.WithHook(drvHook{w}))
 	w.viaPx = redis.New(px.addr(), redis.WithHook(drvHook{w}))
+	w.raw = red.NewClient(&red.Options{Addr: mr.Addr(), MaxRetries: -1})
 	w.vc = kit.InstallVClock()
 	return w
 }
 
 func (w *world) close() {
 	w.hookDown.Store(false)
+	w.garble.Store(0)
+	w.raw.Close()
 	w.px.close()
 	w.mr.Close()
 	kit.UninstallVClock()
@@ -238,6 +289,7 @@ func (w *world) key(prefix string) string {
 // reset prepares a clean store and an empty breaker window for the next case.
 func (w *world) reset() {
 	w.hookDown.Store(false)
+	w.garble.Store(0)
 	if w.netDown {
 		w.px.setDown(false)
 		w.netDown = false
@@ -252,10 +304,13 @@ const (
 )
 
 func (w *world) beginOutage(kind string) {
-	if kind == outNet {
+	switch {
+	case kind == outNet:
 		w.px.setDown(true)
 		w.netDown = true
-	} else {
+	case strings.HasPrefix(kind, outGarble):
+		w.garble.Store(garbageKind(kind))
+	default:
 		w.hookDown.Store(true)
 	}
 }
@@ -265,6 +320,7 @@ func (w *world) beginOutage(kind string) {
 // harness itself (inconclusive, never a verdict).
 func (w *world) heal(st *redis.Redis) bool {
 	w.hookDown.Store(false)
+	w.garble.Store(0)
 	if w.netDown {
 		w.px.setDown(false)
 		w.netDown = false
@@ -469,11 +525,39 @@ func (p *periodCase) reconcile() {
 
 // takeSeq performs one sequential Take and checks it.
 func (p *periodCase) takeSeq(k *perKey, cancelled bool) {
-	ctx := context.Background()
+	mode := ctxLive
 	if cancelled {
-		cctx, cancel := context.WithCancel(ctx)
+		mode = ctxCancelled
+	}
+	p.takeSeqMode(k, mode)
+}
+
+const (
+	ctxLive = iota
+	ctxCancelled
+	ctxExpired
+)
+
+// doneCtx returns a context that is already done in the given way.
+func doneCtx(mode int) (context.Context, context.CancelFunc) {
+	switch mode {
+	case ctxCancelled:
+		ctx, cancel := context.WithCancel(context.Background())
 		cancel()
-		ctx = cctx
+		return ctx, cancel
+	case ctxExpired:
+		return context.WithDeadline(context.Background(), time.Now().Add(-time.Hour))
+	}
+	return context.Background(), func() {}
+}
+
+func (p *periodCase) takeSeqMode(k *perKey, mode int) {
+	cancelled := mode != ctxLive
+	ctx, cancelCtx := doneCtx(mode)
+	defer cancelCtx()
+	if mode == ctxExpired {
+		// an expired deadline counts as a failure in the redis client's breaker: keep its window empty
+		p.w.vc.Advance(breakerWindow)
 	}
 	if p.outage == "" {
 		p.reconcile() // before the call: the store's counter must not yet include it
@@ -500,6 +584,10 @@ func (p *periodCase) takeSeq(k *perKey, cancelled bool) {
 	tag := ""
 	if cancelled {
 		tag = " (cancelled ctx)"
+		if mode == ctxExpired {
+			tag = " (expired ctx)"
+		}
+		p.c.Obs("period_done_ctx_takes", 1)
 	}
 	if p.outage != "" {
 		tag += " (store " + p.outage + ")"
@@ -507,6 +595,9 @@ func (p *periodCase) takeSeq(k *perKey, cancelled bool) {
 	p.logf("take %s%s -> %s err=%v", k.name, tag, cname(code), err)
 	if err != nil {
 		p.c.Obs("period_errors", 1)
+		if cancelled {
+			p.c.Obs("period_done_ctx_errors", 1)
+		}
 		if code != limit.Unknown {
 			p.c.Viol("C03/period/error-with-code/"+cname(code), fmt.Sprintf("Take returned error %q together with code %s (a store error must never come with a grant/verdict)", err, cname(code)), p.witness(""))
 			p.abort = true
@@ -518,11 +609,16 @@ func (p *periodCase) takeSeq(k *perKey, cancelled bool) {
 			if p.outage == outNet {
 				p.dirty = true
 			}
+			if strings.HasPrefix(p.outage, outGarble) && errors.Is(err, limit.ErrUnknownCode) {
+				p.c.Obs("period_unknown_code_on_garbage_reply", 1)
+			}
 		case cancelled:
 			p.dirty = true
 		case errors.Is(err, limit.ErrUnknownCode):
 			p.c.Viol("C03/period/unknown-code-with-healthy-store", "Take answered ErrUnknownCode although the store is reachable and healthy: the request is neither granted nor refused", p.witness(""))
 			p.abort = true
+		case isServerReply(err):
+			p.persistentReplyError(k, err)
 		default:
 			p.c.Inconclusive("unexpected store error while the store is healthy: " + err.Error())
 			p.abort = true
@@ -1088,6 +1184,8 @@ type tokCase struct {
 	sha      int64 // shaSeen at the end of the previous call
 	storeIdx []int
 	localIdx [][]int
+	liveCtx  context.Context // ext families: != nil => call() uses AllowNCtx with this (never done) context
+	notes    map[int]string  // ext families: events that happened before call #i (shown in the witness)
 }
 
 func (t *tokCase) class() string {
@@ -1108,7 +1206,13 @@ func (t *tokCase) hist() []string {
 		if r.phase == "burst" {
 			conc = fmt.Sprintf(" g%d[%d,%d]", r.g, r.call, r.ret)
 		}
+		if n, ok := t.notes[i]; ok {
+			out = append(out, n)
+		}
 		out = append(out, fmt.Sprintf("#%d %s inst%d now=t0+%v(unix %d) n=%d -> %v [%s]%s", i, r.phase, r.inst, r.now.Sub(t.t0), r.now.Unix(), r.n, r.granted, r.class, conc))
+	}
+	if n, ok := t.notes[len(t.recs)]; ok {
+		out = append(out, n)
 	}
 	return out
 }
@@ -1210,7 +1314,11 @@ func (t *tokCase) call(inst, n int, phase string) (storeServed bool) {
 	before, shaBefore, envBefore := t.w.evalsExec.Load(), t.w.shaSeen.Load(), t.w.envErrs.Load()
 	rec := tokRec{inst: inst, now: t.now, n: n, phase: phase}
 	rec.call = kit.Stamp()
-	rec.granted = t.insts[inst].AllowN(t.now, n)
+	if t.liveCtx != nil {
+		rec.granted = t.insts[inst].AllowNCtx(t.liveCtx, t.now, n) // ext families: same call with a live context
+	} else {
+		rec.granted = t.insts[inst].AllowN(t.now, n)
+	}
 	rec.ret = kit.Stamp()
 	delta := t.w.evalsExec.Load() - before
 	t.sha = t.w.shaSeen.Load()
@@ -1435,7 +1543,10 @@ func (t *tokCase) finish(kind string, extraSig []any) {
 	if extraSig != nil {
 		sig = append(sig, extraSig...)
 	} else {
-		for _, r := range t.recs {
+		for i, r := range t.recs {
+			if n, ok := t.notes[i]; ok {
+				sig = append(sig, n)
+			}
 			sig = append(sig, r.inst, r.now.Sub(t.t0), r.n, r.granted, r.class)
 		}
 	}
@@ -1698,5 +1809,6 @@ func TestVerifC03(t *testing.T) {
 	kit.Run(t, "C03", "period-conc", kit.N(600, 8000), func(c *kit.Case) { runPeriodConc(c, w) })
 	kit.Run(t, "C03", "token-seq", kit.N(1200, 20000), func(c *kit.Case) { runTokenSeq(c, w) })
 	kit.Run(t, "C03", "token-conc", kit.N(800, 10000), func(c *kit.Case) { runTokenConc(c, w) })
+	runExtFamilies(t, w)
 	kit.End()
 }
